@@ -13,7 +13,7 @@ def run(tier):
                         "shared literal or a conflict/pop occurred")
     res.assumptions = ["z3 is the reference for entailment between the linear relations the harness wrote itself"]
     exes = [build.driver("dbg", "net_drv"), build.driver("rel", "net_drv")]
-    total = 4800 if tier == "quick" else 30000
+    total = 4800 if tier == "quick" else 150000
     per = 50 if tier == "quick" else 200
     common.pmap(lra.work, [(exes, s + 100000, per, False, PID) for s in range(0, total, per)], res)
     res.gate("shortcut constants reached", res.counters.get("feature:shortcut-const", 0) > 0)
